@@ -399,13 +399,18 @@ def scan_lexicons(source: AnyPath) -> list[ScanInfo]:
     infos: list[ScanInfo] = []
 
     lex_re = re.compile(b'<(Lexicon|LexiconExtension|Extends)\\b([^>]*)>', flags=re.M)
-    attr_re = re.compile(b'''\\b(id|version|label)=["']([^"']+)["']''', flags=re.M)
+    attr_re = re.compile(
+        b'''\\b(id|version|label)\\s*=\\s*(?:"([^"]*)"|'([^']*)')''', flags=re.M
+    )
 
     with open(source, 'rb') as fh:
         for m in lex_re.finditer(fh.read()):
             lextype, remainder = m.groups()
             attrs = {
-                _m.group(1).decode("utf-8"): _m.group(2).decode("utf-8")
+                _m.group(1).decode("utf-8"): _unescape_attr(
+                    (_m.group(2) if _m.group(2) is not None else _m.group(3))
+                    .decode("utf-8")
+                )
                 for _m in attr_re.finditer(remainder)
             }
             info: ScanInfo = {
@@ -427,6 +432,20 @@ def scan_lexicons(source: AnyPath) -> list[ScanInfo]:
                 raise LMFError('invalid use of <Extends> in WN-LMF file')
 
     return infos
+
+
+def _unescape_attr(value: str) -> str:
+    """Resolve character and entity references in an attribute value."""
+    def resolve(m: re.Match) -> str:
+        ref = m.group(1)
+        if ref.startswith(('#x', '#X')):
+            return chr(int(ref[2:], 16))
+        if ref.startswith('#'):
+            return chr(int(ref[1:]))
+        return {'amp': '&', 'lt': '<', 'gt': '>', 'quot': '"', 'apos': "'"}.get(ref, m.group(0))
+    # literal tabs and line breaks are normalized to spaces by XML parsers
+    value = re.sub(r'[\t\n\r]', ' ', value)
+    return re.sub(r'&(#[xX][0-9a-fA-F]+|#[0-9]+|[A-Za-z]+);', resolve, value)
 
 
 _Elem = dict[str, Any]  # basic type for the loaded XML data
